@@ -2462,6 +2462,9 @@ class Transport(threading.Thread, ClosingContextManager):
                     if not k.startswith(mp_required_prefix)
                 ]
                 self.get_security_options().kex = pkex
+                # ...and must not advertise it either (kex_algos was computed
+                # before the filtering above)
+                kex_algos = list(self.preferred_kex)
             available_server_keys = list(
                 filter(
                     list(self.server_key_dict.keys()).__contains__,
